@@ -19,6 +19,8 @@ pub mod c15;
 pub mod c16;
 pub mod c17;
 pub mod c18;
+pub mod c19;
+pub mod c20;
 
 pub fn run(id: &str, eng: &Engine) {
     match id {
@@ -40,6 +42,8 @@ pub fn run(id: &str, eng: &Engine) {
         "C16" => c16::run(eng),
         "C17" => c17::run(eng),
         "C18" => c18::run(eng),
+        "C19" => c19::run_check(eng),
+        "C20" => c20::run(eng),
         _ => {
             println!("INCONCLUSIVE unknown property {id}");
             std::process::exit(2);
@@ -67,6 +71,8 @@ pub fn replay(id: &str, eng: &Engine, stage: &str, case: &Value) -> CaseResult {
         "C16" => c16::replay(eng, stage, case),
         "C17" => c17::replay(eng, stage, case),
         "C18" => c18::replay(eng, stage, case),
+        "C19" => c19::replay(eng, stage, case),
+        "C20" => c20::replay(eng, stage, case),
         _ => Err(Failure::new("machinery", format!("unknown property {id}"))),
     }
 }
